@@ -1,2 +1,110 @@
-(* placeholder until the statements are pinned *)
-From WV Require Import Model.BodySpec.
+(* C01 - the parse->emit round trip preserves execution behaviour (function-body level).  Statements only; proofs in
+   Proofs/Sem.v.  Model/Sem.v: an abstract big-step semantics of structured operator forests ([eval], fuel counts loop
+   re-entries; results Fall / Br d / Stop halt / Stuck / Fuel), PARAMETRIC in the machine state S, the semantics of the
+   individual operators [sem], the popping of conditions and indices, label arities and stack unwinding.
+   - [nf_rt_list] is what the round trip does to a body (nop dropped, everything after the first br / br_table /
+     return / unreachable of a sequence dropped, `else` synthesised, block types canonicalised, operators re-encoded);
+     c01_emitted_body_is_flattened_normal_form / c01_emitted_bytes tie it to the emitted operator stream (with C03);
+   - c01_normal_form_is_equivalent: for EVERY state, fuel and operator semantics that is invariant under the renaming
+     of indices (the interface to the WebAssembly semantics: the same operator on the renumbered store) and in which
+     return / unreachable never fall through, the output body evaluates to exactly the same result - value state, branch,
+     halt (trap / return / tail call), stuckness and divergence - as the input body;
+   - what is dropped is a nop or code that no execution reaches; an `if` without `else` behaves as with an empty `else`.
+   Not in Coq: concrete operator semantics, instantiation, the module-level renumbering / reordering of functions (the
+   renaming hypothesis covers it per operator); those are observed by executing input and output side by side. *)
+From Coq Require Import List NArith Bool. Import ListNotations.
+From WV Require Import Gen.Ops Model.Common Model.IR Model.ParseFn Model.ParseSpec Model.EmitFn Model.EmitSpec Model.BodySpec Model.Sem Proofs.Sem.
+
+Theorem c01_normal_form_is_equivalent :
+  forall (S halt : Type) (pop_cond : S -> option (bool * S)) (pop_index : S -> option (N * S))
+           (unwind : N -> S -> S) (sem_in sem_out : wins -> S -> step S halt)
+           (arity_in arity_out loop_arity_in loop_arity_out : blockty -> N),
+         (forall (o : wop) (s : S), sem_out (WOp o) s = sem_in (WOp o) s) ->
+         (forall bt : blockty, arity_out bt = arity_in bt) ->
+         (forall bt : blockty, loop_arity_out bt = loop_arity_in bt) ->
+         (forall (o : wop) (s : S),
+          marks_unreachable o = true -> exists (h : halt) (s' : S), sem_in (WOp o) s = Halt h s') ->
+         forall (fuel : nat) (l : list rt) (s : S),
+         eval S halt pop_cond pop_index unwind sem_out arity_out loop_arity_out fuel 
+           (fst (nf_rt_list false l)) s =
+         eval S halt pop_cond pop_index unwind sem_in arity_in loop_arity_in fuel l s.
+Proof. exact nf_equiv. Qed.
+
+Theorem c01_equivalence_on_the_renamed_operators :
+  forall (S halt : Type) (pop_cond : S -> option (bool * S)) (pop_index : S -> option (N * S))
+           (unwind : N -> S -> S) (cx : pctx) (ecx : ectx) (sem_in sem_out' : wins -> S -> step S halt)
+           (arity_in arity_out' loop_arity_in loop_arity_out' : blockty -> N),
+         (forall (o : wop) (s : S), sem_out' (nf_op cx ecx o) s = sem_in (WOp o) s) ->
+         (forall bt : blockty, arity_out' (nf_bt cx ecx bt) = arity_in bt) ->
+         (forall bt : blockty, loop_arity_out' (nf_bt cx ecx bt) = loop_arity_in bt) ->
+         (forall (o : wop) (s : S),
+          marks_unreachable o = true -> exists (h : halt) (s' : S), sem_in (WOp o) s = Halt h s') ->
+         forall (fuel : nat) (l : list rt) (s : S),
+         eval S halt pop_cond pop_index unwind (sem_ren S halt cx ecx sem_out')
+           (fun bt : blockty => arity_out' (nf_bt cx ecx bt))
+           (fun bt : blockty => loop_arity_out' (nf_bt cx ecx bt)) fuel (fst (nf_rt_list false l)) s =
+         eval S halt pop_cond pop_index unwind sem_in arity_in loop_arity_in fuel l s.
+Proof. exact nf_equiv_renamed. Qed.
+
+Theorem c01_divergence_preserved :
+  forall (S halt : Type) (pop_cond : S -> option (bool * S)) (pop_index : S -> option (N * S))
+           (unwind : N -> S -> S) (sem_in sem_out : wins -> S -> step S halt)
+           (arity_in arity_out loop_arity_in loop_arity_out : blockty -> N),
+         (forall (o : wop) (s : S), sem_out (WOp o) s = sem_in (WOp o) s) ->
+         (forall bt : blockty, arity_out bt = arity_in bt) ->
+         (forall bt : blockty, loop_arity_out bt = loop_arity_in bt) ->
+         (forall (o : wop) (s : S),
+          marks_unreachable o = true -> exists (h : halt) (s' : S), sem_in (WOp o) s = Halt h s') ->
+         forall (fuel : nat) (l : list rt) (s : S),
+         eval S halt pop_cond pop_index unwind sem_out arity_out loop_arity_out fuel 
+           (fst (nf_rt_list false l)) s = Fuel <->
+         eval S halt pop_cond pop_index unwind sem_in arity_in loop_arity_in fuel l s = Fuel.
+Proof. exact nf_equiv_fuel. Qed.
+
+Theorem c01_only_dead_code_and_nops_dropped :
+  forall (S halt : Type) (pop_cond : S -> option (bool * S)) (pop_index : S -> option (N * S))
+           (unwind : N -> S -> S) (sem_in : wins -> S -> step S halt) (arity_in loop_arity_in : blockty -> N),
+         (forall (o : wop) (s : S),
+          marks_unreachable o = true -> exists (h : halt) (s' : S), sem_in (WOp o) s = Halt h s') ->
+         forall (l1 : list rt) (t : rt) (l2 : list rt),
+         fst (nf_rt (snd (nf_rt_list false l1)) t) = [] ->
+         (exists loc : N, t = RNop loc) \/
+         (forall (fuel : nat) (s s' : S),
+          eval S halt pop_cond pop_index unwind sem_in arity_in loop_arity_in fuel l1 s <> Fall s') /\
+         (forall (fuel : nat) (s : S),
+          eval S halt pop_cond pop_index unwind sem_in arity_in loop_arity_in fuel (l1 ++ t :: l2) s =
+          eval S halt pop_cond pop_index unwind sem_in arity_in loop_arity_in fuel l1 s).
+Proof. exact nf_drops_only_dead. Qed.
+
+Theorem c01_else_synthesis :
+  forall (S halt : Type) (pop_cond : S -> option (bool * S)) (pop_index : S -> option (N * S))
+           (unwind : N -> S -> S) (sem_in : wins -> S -> step S halt) (arity_in loop_arity_in : blockty -> N)
+           (fuel : nat) (bt : blockty) (th : list rt) (l e le : N) (s : S),
+         eval_t S halt pop_cond pop_index unwind sem_in arity_in loop_arity_in fuel (RIf bt th None l e) s =
+         eval_t S halt pop_cond pop_index unwind sem_in arity_in loop_arity_in fuel
+           (RIf bt th (Some (le, [])) l e) s.
+Proof. exact else_synthesis. Qed.
+
+Theorem c01_emitted_body_is_flattened_normal_form :
+  forall (cx : pctx) (ecx : ectx) (u : bool) (l : list rt),
+         map (fun p : N * wins => (snd p, fst p)) (fst (nf_list cx ecx u l)) =
+         flat_list' cx ecx (fst (nf_rt_list u l)).
+Proof. exact flat_nf_rt. Qed.
+
+Theorem c01_emitted_bytes :
+  forall (cx : pctx) (ecx : ectx) (ety : N) (rs : list valty) (l : list rt) (eloc p0 : N),
+         wfl cx 1 l ->
+         (forall o : wop, decode_plain (px_i2id cx) o <> None -> encode_plain (ex_id2i ecx) (dec cx o) <> None) ->
+         exists (ar : arena) (st : estate) (fuel : nat),
+           parse_body cx ety rs (flat_list l ++ [(WEnd, eloc)]) = Ok ar /\
+           emit_body ecx fuel ar 0 p0 = Ok st /\
+           out st = map fst (flat_list' cx ecx (fst (nf_rt_list false l))) ++ [WEnd].
+Proof. exact roundtrip_body_sem. Qed.
+
+Print Assumptions c01_normal_form_is_equivalent.
+Print Assumptions c01_equivalence_on_the_renamed_operators.
+Print Assumptions c01_divergence_preserved.
+Print Assumptions c01_only_dead_code_and_nops_dropped.
+Print Assumptions c01_else_synthesis.
+Print Assumptions c01_emitted_body_is_flattened_normal_form.
+Print Assumptions c01_emitted_bytes.
